@@ -265,19 +265,53 @@ def gen_backpressure(rng, relaxed):
             "senders": [kind], "ops": ops}
 
 
+def gen_relaxed_burst(rng, tier):
+    """relaxed mailboxes under back-pressure WITHOUT time-outs: small receive queue, slow receiver, long write time-out,
+    messages written back to back (they pile up in the socket and behind the handler), reads in between, drain"""
+    nsend = rng.choice([1, 1, 1, 2])
+    cap = rng.choice([1, 1, 2, 3])
+    ops = []
+    seq = [0] * nsend
+    total = 0
+    nread = 0
+    for _ in range(rng.randint(2, 4)):
+        s = rng.randrange(nsend)
+        n = rng.randint(15, 90)
+        ops.append(["burst", s, s * 1000 + seq[s], n, 0]); seq[s] += n; total += n
+        insec = 0
+        for _ in range(rng.randint(0, min(12, total - nread))):
+            ops.append(["r"]); insec += 1
+            if rng.random() < 0.3:
+                ops.append(["rc"]); nread += insec; insec = 0
+        if rng.random() < 0.8:
+            ops.append(["rc"]); nread += insec
+        else:
+            ops.append(["ra"])          # the reads of this section will be redelivered
+    for _ in range(total - nread):
+        ops.append(["r"])
+    ops.append(["rc"])
+    # nothing more may come
+    ops += [["r"], ["ra"], ["rc"]]
+    return {"kind": "relaxed", "nsend": nsend, "cap": cap, "read_ms": READ_MS, "write_ms": 1000, "dial_ms": DIAL_MS, "custom": False,
+            "senders": ["relaxed"] * nsend, "ops": ops, "racy": nsend >= 2, "burst": True}
+
+
 def expand(case, out):
-    """flat op / result lists: a `fill` step is replaced by the sections it ran (as the harness reports them)"""
+    """flat op / result lists: a `fill` / `burst` step is replaced by the sections it ran (as the harness reports them)"""
     ops, res = [], []
     rs = out.get("res") or []
     for op, r in zip(case["ops"], rs):
-        if op[0] != "fill" or r["st"] != "ok":
+        if op[0] not in ("fill", "burst") or r["st"] != "ok":
             ops.append(op); res.append(r); continue
         s, pad = op[1], op[4]
         tcp = case["senders"][s] == "tcp"
-        for i, code in (r.get("v") or []):
+        for ent in (r.get("v") or []):
+            i, code = ent[0], ent[1]
+            conn = ent[2] if len(ent) > 2 else ""
+            wop = ["big", s, i, pad] if pad else ["w", s, i]
             if code == "wabort":
-                ops.append(["big", s, i, pad]); res.append({"st": "abort", "v": None}); continue
-            ops.append(["big", s, i, pad]); res.append({"st": "ok", "v": None})
+                ops.append(wop); res.append({"st": "abort", "v": None}); continue
+            ops.append(wop); res.append({"st": "ok", "v": None, "conn": conn})
             if tcp:
                 ops.append(["pc", s]); res.append({"st": "ok" if code in ("ok", "pending") else "abort", "v": None})
                 if code not in ("ok", "pending"):
